@@ -1295,6 +1295,12 @@ def check_C10(tier, seed):
                                                                       ForAllKeepsConditionVars=True), invariants=("Mech4EqualsSem",))
         run.mc("MechCheck", "b4-before-the-repair", constants=dict(b4, G="G3y", NV=3, LeafLimit=8, ForAllKeepsConditionVars=False),
                invariants=("Mech4EqualsSem",), expect_violation="Mech4EqualsSem", count=False)
+        # universals that are the solutions of a sub-query (part of the two runs above): their caches are cleared when the
+        # quantifier stops early; before "fix: for_all that fails early ..." they were not, and TLC finds the program whose
+        # second evaluation of the quantifier ranges over a truncated universal domain
+        run.mc("MechCheck", "b4-universal-caches-before-the-repair",
+               constants=dict(b4, G="G3y", NV=3, LeafLimit=8, ForAllKeepsConditionVars=True, ForAllInvalidatesUniversal="never"),
+               invariants=("Mech4EqualsSem",), expect_violation="Mech4EqualsSem", count=False)
         # conditions of three leaves under the quantifier (a disjunction nested in a conjunction and vice versa)
         three = run.export("GenQuery", "G3-3leaves", "PROG", constants=dict(G="G3", NV=2, LeafLimit=5, MaxLeaves=3, MaxNot=0,
                                                                            NeedNot=False), invariants=("Export", "WellFormed"), count=False)
